@@ -339,10 +339,12 @@ func prefixKeyForRecipientAndHeight(recipient Address, height int64) []byte {
 // contract: caller must close iterator
 func PrefixIterator(db dbm.DB, prefix []byte, order string) (dbm.Iterator, error) {
 	switch order {
+	// the ELEN-encoded index keys ascend with height and position, so ascending order is the
+	// forward iterator and descending order the reverse one
 	case SortAscending:
-		return db.ReverseIterator(prefix, endKey(prefix))
-	case SortDescending:
 		return db.Iterator(prefix, endKey(prefix))
+	case SortDescending:
+		return db.ReverseIterator(prefix, endKey(prefix))
 	default:
 		return nil, fmt.Errorf("sorting order: %v not supported", order)
 	}
